@@ -17,6 +17,7 @@ ShapesNum == {1, 7, 9}         \* message (number redactable), create (kept whol
 VariantsAll == AllVariants
 Variants12 == {1, 2}
 Variants1 == {1}
+Variants2 == {2}
 AlphabetFull == OpNames
 AlphabetQuick == {"RU", "RT", "RH", "SU1", "SF", "AS2", "RD"}
 NoOps == {}
